@@ -15,8 +15,8 @@ from .purity import check_no_static_influence
 
 
 def check_instance_state(chk, m, fn):
-    """Q4: everything rotenc_decode remembers between calls lives in the rotenc_t it is given."""
-    check_no_static_influence(chk, "Q4.per-instance-state", m, fn,
+    """Q6: everything rotenc_decode remembers between calls lives in the rotenc_t it is given."""
+    check_no_static_influence(chk, "Q6.per-instance-state", m, fn,
                               "that object is shared by all rotenc_t instances, so the decoding of one encoder depends on the calls made for another")
 
 
